@@ -224,7 +224,8 @@ def run_check(pid, tier="quick", seed=0, workers=None, limit=None, verbose=True)
             agg["notes"][n] = agg["notes"].get(n, 0) + 1
         d = scn_digest(scns[idx])
         seen_digests.add(d)
-        if any(n > 0 for n in w.values()):
+        nt = getattr(mod, "NONTRIVIAL", None)
+        if any(n > 0 and (nt is None or k in nt) for k, n in w.items()):
             nontrivial_digests.add(d)
 
     # rotate work order with the seed (no verdict depends on it)
